@@ -15,7 +15,12 @@ import (
 // Rng is splitmix64; every random choice of a run derives from one state (VERIF_SEED).
 type Rng struct{ s uint64 }
 
-func NewRng(seed uint64) *Rng { return &Rng{s: seed*0x9E3779B97F4A7C15 + 0x1234567} }
+func NewRng(seed uint64) *Rng {
+	// seeds must not be gamma-multiples of each other (that would only shift the stream)
+	r := &Rng{s: (seed+1)*0xD1342543DE82EF95 ^ 0x2545F4914F6CDD1D}
+	r.s = r.U64() ^ (seed << 17)
+	return r
+}
 func (r *Rng) U64() uint64 {
 	r.s += 0x9E3779B97F4A7C15
 	z := r.s
